@@ -184,6 +184,32 @@ class GroupInfo:
         self._fns[key] = f
         return f
 
+    def numeric(self, key, *args):
+        """The same operation called directly on numeric (DM) parameters, as an interactive user does
+        (no casadi.Function in between); returns numpy."""
+        G, alg = self.G, self.alg
+        D = [ca.DM(np.asarray(a, dtype=float)) for a in args]
+        with quiet():
+            if key == "toM":
+                r = G.elem(D[0]).to_Matrix()
+            elif key == "prod":
+                r = (G.elem(D[0]) * G.elem(D[1])).param
+            elif key == "inv":
+                r = G.elem(D[0]).inverse().param
+            elif key == "log":
+                r = G.elem(D[0]).log().param
+            elif key == "exp":
+                r = alg.elem(D[0]).exp(G).param
+            elif key == "Ad":
+                r = G.elem(D[0]).Ad()
+            elif key == "ad":
+                r = alg.elem(D[0]).ad()
+            elif key == "bracket":
+                r = (alg.elem(D[0]) * alg.elem(D[1])).param
+            else:
+                raise KeyError(key)
+            return arr(ca.evalf(ca.densify(ca.SX(r))))
+
     def toM(self, X):
         return self.fn("toM")(X)
 
@@ -276,12 +302,14 @@ PRODUCTS_QUICK = [
     ("R2", "SO3EulerB321", "SE3Mrp"),
     ("SE3Mrp", "SE3Quat"),  # repeated non-abelian algebra
     ("SO3Quat", "SO3EulerB321", "SO3Mrp"),  # three times the same algebra, different parameterisations
+    ("SE2", "R3", "SE2"),  # the same group object twice, in non-adjacent slots
+    ("SO3Mrp", "SO3Mrp"),
 ]
 PRODUCTS_THOROUGH = PRODUCTS_QUICK + [
     ("SO2", "SO2"),
     ("SE23Quat", "SE2"),
     ("R3", "R3", "R2"),
-    ("SE2", "R3", "SE2"),
+    ("SE3Quat", "R2", "SE3Quat"),
     ("SO3Dcm", "SO3Dcm"),
     ("SE3(Dcm)", "SO2"),
     ("SE23(Euler)", "R2"),
